@@ -586,6 +586,10 @@ class SMasked:
         tot = _sum_cells([_cell_ite(m, c, 0) for c, m in zip(self.cells, self.mask)], F64 if self.dtype.kind == "f" else self.dtype)
         if n == 0:
             return float("nan")   # numpy: mean of empty slice -> nan (+ RuntimeWarning)
+        if ENG.concretize_div and isinstance(n, SNum) and n.concrete() is None:
+            # keep the quotient linear: fork over the number of selected elements
+            k = ENG.concretize(n.t, 1, len(self.cells))
+            return _mk_float(tot) / k
         return _mk_float(tot) / _mk_float(n)
 
     def sum(self):
@@ -1258,6 +1262,13 @@ def asarray(x, dtype=None, **kw):
     return array(x, dtype)
 
 
+def squeeze(a, axis=None):
+    if axis is not None:
+        raise Unsupported("squeeze(axis)")
+    a = _asarr(a)
+    return a.reshape(tuple(s for s in a.shape if s != 1))
+
+
 def atleast_1d(a):
     if isinstance(a, SArr):
         return a if a.ndim >= 1 else a.reshape((1,))
@@ -1386,14 +1397,16 @@ def sqrt_const(k):
 
 
 def sqrt_axioms(kmax):
-    """constraints tying the sqrt constants together: exact for squares, s_k*s_k == k, strictly monotone"""
+    """linear facts tying the sqrt constants together: rational bounds (1e-9) for non-squares and strict monotonicity"""
+    from decimal import Decimal, getcontext
+    getcontext().prec = 40
     ax = []
     prev = None
     for k in range(0, kmax + 1):
         s = sqrt_const(k)
         if not z3.is_rational_value(s):
-            ax.append(s * s == k)
-            ax.append(s > 0)
+            lo = Fraction(int(Decimal(k).sqrt() * 10 ** 9), 10 ** 9)
+            ax.append(z3.And(s > z3.RealVal(lo), s < z3.RealVal(lo + Fraction(1, 10 ** 9))))
         if prev is not None:
             ax.append(prev < s)
         prev = s
@@ -1509,6 +1522,7 @@ def build_module():
     m.array = array
     m.asarray = asarray
     m.atleast_1d = atleast_1d
+    m.squeeze = squeeze
     m.zeros = zeros
     m.ones = ones
     m.zeros_like = zeros_like
